@@ -48,7 +48,7 @@ class C15(Prop):
     floors = {'quick': (200, 60), 'thorough': (4000, 1000)}
     must_reach = []
     quick_cases = 700
-    thorough_cases = 150000
+    thorough_cases = 300000
     shrink_data = False
 
     def gen(self, rng, ctx):
